@@ -53,8 +53,11 @@ def dt_cases(tier):
     fut = c03.formula_set(tier)
     step_p, step_f = (12, 25) if quick else (6, 12)
     out = [(f, False, (), None) for f in past[::step_p]] + [(f, True, (), None) for f in fut[::step_f]]
-    # with sub-specifications
     px, py = F.PX, F.PY
+    for iv in ((2, 3), (3, 3), (2, 4)):
+        out += [(('once', iv, px), False, (), None), (('historically', iv, F.X), False, (), None), (('since', iv, px, py), False, (), None),
+                (('not', ('once', iv, ('not', px))), False, (), None), (('eventually', iv, px), True, (), None)]
+    # with sub-specifications
     out.append((('and', ('once', (0, 2), px), ('prev', ('once', (0, 2), px))), False, ('p = once[0,2] (x >= 0);',), 'out = p and (prev p)'))
     out.append((('since', (1, 2), ('historically', (0, 1), px), py), False, ('p = historically[0,1] (x >= 0);',), 'out = p since[1,2] (y <= 1)'))
     out.append((('or', ('rise', px), ('eventually', (0, 1), ('rise', px))), True, ('p = rise(x >= 0);',), 'out = p or eventually[0,1] p'))
